@@ -47,7 +47,10 @@ Definition thread_ok (cs : list conn) (t : thread) : Prop :=
       c < length cs /\
       (if t_dial t then (t_force t = true -> c_proxy (get_conn cs c) = false)
        else (c_lim (get_conn cs c) = true -> t_allow t = true))
-  | PGot c | POpen c => c < length cs
+  | PGot c => c < length cs
+  | POpen c =>
+      (* Swarm.NewStream reaches Conn.NewStream only with a conn it may use *)
+      c < length cs /\ (t_onconn t = false -> c_lim (get_conn cs c) = true -> t_allow t = true)
   | _ => True
   end.
 
@@ -55,6 +58,7 @@ Lemma thread_ok_ext : forall cs cs' t, ext cs cs' -> thread_ok cs t -> thread_ok
 Proof.
   intros cs cs' t [Hlen Hat] [H1 H2]. split; [exact H1|].
   destruct (t_pc t) as [| | | |c| | | | |c|c|c|[c|e]]; auto; try lia.
+  - destruct H2 as [Hc H]. split; [lia|]. destruct (Hat c Hc) as [-> _]. exact H.
   - destruct H2 as [Hc H]. split; [lia|]. destruct (Hat c Hc) as [-> _]. exact H.
   - destruct H2 as [Hc H]. split; [lia|]. destruct (Hat c Hc) as [-> _]. exact H.
   - destruct H2 as [Hc H]. split; [lia|]. destruct (Hat c Hc) as [-> ->]. exact H.
@@ -279,14 +283,16 @@ Proof.
     - apply thread_ok_with_pc_plain; assumption.
     - cbn. intros rid E. exfalso. eapply P3; eauto. }
   assert (Conn : forall p c, (p = PGot c \/ p = POpen c) -> c < length (conns s) -> t_dial t = false ->
+            (p = POpen c -> t_onconn t = false -> c_lim (get_conn (conns s) c) = true -> t_allow t = true) ->
             InvA (set_thread s tid (with_pc t p))).
-  { intros p c Hp Hc Hd. eapply InvA_set_thread; [exact HI|exact Ht| |reflexivity|].
-    - split; cbn [t_pc with_pc t_dial]; [auto|]. destruct Hp as [-> | ->]; exact Hc.
+  { intros p c Hp Hc Hd HO. eapply InvA_set_thread; [exact HI|exact Ht| |reflexivity|].
+    - split; cbn [t_pc with_pc t_dial]; [auto|]. destruct Hp as [-> | ->]; [exact Hc|].
+      split; [exact Hc|]. cbn [t_onconn t_allow with_pc]. apply HO. reflexivity.
     - cbn. intros rid E. destruct Hp as [-> | ->]; discriminate. }
   destruct (t_pc t) as [| | |rid|c| |w| |w|c|c|c|r] eqn:Hpc; cbn [stream_pc] in K1.
   - (* PLoop *)
     destruct (best_conn (conns s)) as [c|] eqn:B.
-    + injection H as <-. eapply Conn; [left; reflexivity| |auto]. apply (best_conn_some _ _ B).
+    + injection H as <-. eapply Conn; [left; reflexivity| |auto|discriminate]. apply (best_conn_some _ _ B).
     + destruct (t_nodial t).
       * injection H as <-. apply Plain; [cbn; discriminate|exact I|discriminate].
       * destruct (Nat.ltb (dial_attempts s) (S (t_dials t))).
@@ -304,14 +310,15 @@ Proof.
   - (* PDialWait *)
     destruct (t_ctx t); [|discriminate]. injection H as <-. apply Plain; [cbn; discriminate|exact I|discriminate].
   - (* PGot *)
-    destruct (negb (t_allow t) && c_lim (get_conn (conns s) c)); injection H as <-.
+    destruct (negb (t_allow t) && c_lim (get_conn (conns s) c)) eqn:T; injection H as <-.
     + apply Plain; [auto|exact I|discriminate].
-    + eapply Conn; [right; reflexivity|exact K2|auto].
+    + eapply Conn; [right; reflexivity|exact K2|auto|]. intros _ _ L. rewrite L, andb_true_r in T.
+      apply negb_false_iff in T. exact T.
   - (* PWaitReg *)
     destruct (best_conn (conns s)) as [c|] eqn:B.
-    + destruct (c_lim (get_conn (conns s) c)); injection H as <-.
+    + destruct (c_lim (get_conn (conns s) c)) eqn:L; injection H as <-.
       * eapply InvA_same; [..|apply (Plain (PWaiting (nextw s))); [auto|exact I|discriminate]]; reflexivity.
-      * eapply Conn; [right; reflexivity| |auto]. apply (best_conn_some _ _ B).
+      * eapply Conn; [right; reflexivity| |auto|congruence]. apply (best_conn_some _ _ B).
     + injection H as <-. apply Plain; [cbn; discriminate|exact I|discriminate].
   - (* PWaiting *)
     destruct (mem w (closedw s)).
@@ -319,9 +326,9 @@ Proof.
     + destruct (t_ctx t); [|discriminate]. injection H as <-. apply Plain; [auto|exact I|discriminate].
   - (* PWoken *)
     destruct (best_conn (conns s)) as [c|] eqn:B.
-    + destruct (c_lim (get_conn (conns s) c)); injection H as <-.
+    + destruct (c_lim (get_conn (conns s) c)) eqn:L; injection H as <-.
       * apply Plain; [cbn; discriminate|exact I|discriminate].
-      * eapply Conn; [right; reflexivity| |auto]. apply (best_conn_some _ _ B).
+      * eapply Conn; [right; reflexivity| |auto|congruence]. apply (best_conn_some _ _ B).
     + injection H as <-. apply Plain; [cbn; discriminate|exact I|discriminate].
   - (* PExpired *)
     destruct (mem w (waiters s)); injection H as <-.
@@ -331,7 +338,7 @@ Proof.
     destruct (c_lim (get_conn (conns s) c) && negb (t_allow t)) eqn:T; injection H as <-.
     + apply Plain; [cbn; discriminate|exact I|discriminate].
     + eapply InvA_set_thread; [exact HI|exact Ht| |reflexivity|cbn; intros; discriminate].
-      split; cbn [t_pc with_pc t_dial t_allow]; [auto|]. split; [exact K2|].
+      split; cbn [t_pc with_pc t_dial t_allow]; [auto|]. split; [exact (proj1 K2)|].
       intros L. rewrite L in T. cbn in T. apply negb_false_iff in T. exact T.
   - discriminate.
   - (* POpenFailed *)
@@ -518,6 +525,26 @@ Proof. intros A f l x H. apply filter_In in H. tauto. Qed.
 Lemma shrinks_refl : forall p, shrinks p p.
 Proof. intros p. repeat split; auto. Qed.
 
+Lemma InvA_new_thread : forall s x,
+  InvA s -> thread_ok (conns s) x -> (forall rid, t_pc x <> PDialWait rid) ->
+  InvA (set_threads s (threads s ++ [x])).
+Proof.
+  intros s x [H1 H2 H3 H4 H5 H6 H7] Hok Hn. constructor; ssimpl; auto.
+  - intros j y Hy. destruct (Nat.lt_ge_cases j (length (threads s))) as [L|L].
+    + rewrite nth_error_app1 in Hy by exact L. eauto.
+    + rewrite nth_error_app2 in Hy by exact L. destruct (j - length (threads s)); [|destruct n; discriminate].
+      cbn in Hy. injection Hy as <-. exact Hok.
+  - intros p Hp. destruct (H3 p Hp) as [P1 [P2 P3]]. split; [exact P1|]. split; [exact P2|].
+    ssimpl. intros y Hy Hpcy. destruct (Nat.lt_ge_cases (p_tid p) (length (threads s))) as [L|L].
+    + rewrite nth_error_app1 in Hy by exact L. auto.
+    + rewrite nth_error_app2 in Hy by exact L. destruct (p_tid p - length (threads s)); [|destruct n; discriminate].
+      cbn in Hy. injection Hy as <-. exfalso. eapply Hn; eauto.
+  - intros j y rid Hy Hpcy. destruct (Nat.lt_ge_cases j (length (threads s))) as [L|L].
+    + rewrite nth_error_app1 in Hy by exact L. eauto.
+    + rewrite nth_error_app2 in Hy by exact L. destruct (j - length (threads s)); [|destruct n; discriminate].
+      cbn in Hy. injection Hy as <-. exfalso. eapply Hn; eauto.
+Qed.
+
 Lemma step_raw_InvA : forall s a s', InvA s -> step_raw s a = Some s' -> InvA s'.
 Proof.
   intros s a s' HI H. destruct a; cbn [step_raw] in H.
@@ -562,7 +589,7 @@ Proof.
     + intros j x Hx. destruct (Nat.lt_ge_cases j (length (threads s))) as [L|L].
       * rewrite nth_error_app1 in Hx by exact L. eauto.
       * rewrite nth_error_app2 in Hx by exact L. destruct (j - length (threads s)); [|destruct n; discriminate].
-        cbn in Hx. injection Hx as <-. split; cbn; auto.
+        cbn in Hx. injection Hx as <-. split; cbn; auto. split; [exact Lc|discriminate].
     + intros p Hp. destruct (H3 p Hp) as [P1 [P2 P3]]. split; [exact P1|]. split; [exact P2|].
       ssimpl. intros x Hx Hpcx. destruct (Nat.lt_ge_cases (p_tid p) (length (threads s))) as [L|L].
       * rewrite nth_error_app1 in Hx by exact L. auto.
@@ -628,6 +655,16 @@ Proof.
       * injection Hl as <-. apply Nat.eqb_eq in E. subst b. split; assumption.
       * eapply A2; eauto.
     + intros p' Hp'. exists p'. split; [auto|apply shrinks_refl].
+  - (* AStartConn *)
+    injection H as <-. apply InvA_new_thread; [exact HI| |].
+    + split; [cbn; destruct (negb force && _); [destruct (best_conn (conns s))|]; discriminate|].
+      cbn [t_pc t_dial t_force].
+      destruct (negb force && (Nat.eqb (connectedness (conns s)) 1 || allow && Nat.eqb (connectedness (conns s)) 2)) eqn:Sh;
+        [|exact I].
+      destruct (best_conn (conns s)) as [c|] eqn:B; [|exact I].
+      split; [apply (best_conn_some _ _ B)|]. intros ->. discriminate.
+    + intros rid. cbn [t_pc].
+      destruct (negb force && _); [destruct (best_conn (conns s))|]; discriminate.
 Qed.
 
 Lemma cleanup_InvA : forall s, InvA s -> InvA (cleanup s).
